@@ -459,7 +459,14 @@ def run(chk):
             got = im.get(key, [])
             chk.evaluations += 1
             chk.count('same_named_items_checked')
-            if sorted(map(json.dumps, got)) != sorted(map(json.dumps, exps)) and len(got) == len(exps):
+            # a unit struct of that name is collected as a struct without members (the spec lists no members for it), and a twin that
+            # fails to parse is not collected at all (it is counted as an error above): the collected lists must be a SUB-multiset of
+            # the lists the source items of that name expect (thorough-tier false alarm: struct Node { .. u64 .. } next to struct Node;)
+            if key[0] == 'struct':
+                exps = exps + [[] for kd, n, _ in tr if kd == 'unit_struct' and n == key[1]]
+            import collections
+            want_c, got_c = collections.Counter(map(json.dumps, exps)), collections.Counter(map(json.dumps, got))
+            if got_c - want_c:
                 chk.violation(f'members-dup-{k}-{key[1]}', dict(payload, part='members', item=key[1], impl_members=got, expected_members=exps),
                               f'{key[0]} {key[1]} occurs {len(exps)} times: the collected member lists are not those of the source items')
         if k % 97 == 0:
